@@ -27,7 +27,7 @@ function wellFormed(v) {
 }
 for (const e of inp.evals || []) {
   try {
-    const v = vm.runInNewContext(e, {}, { timeout: 2000 });
+    const v = vm.runInNewContext(e, {}, { timeout: 120000 } /* a guard only: a quoted literal cannot loop; a short limit raised false alarms on a loaded machine */);
     out.evals.push({ hex: hexOf(v), wf: wellFormed(String(v)) });
   } catch (err) {
     out.evals.push({ err: String(err) });
